@@ -33,8 +33,10 @@ EXPLANATION = (
     'month m (first four weeks / last seven days) for both year lengths. C01-default: the '
     'before-first-transition type is type 0 unless some transition was seen to use type 0. '
     'C01-footer: with the field ranges the footer parser admits, every table subscript of the rule '
-    'expander is in bounds. Does not decide the decode, the rule arithmetic of TransOffset, or the '
-    'values produced.')
+    'expander is in bounds. C01-decode: each signed big-endian decoder the loader calls, interpreted '
+    'abstractly on N unknown bytes, returns exactly the N-byte two\'s-complement range (sign '
+    'extension of 4-byte transition times and offsets). Does not decide the rule arithmetic of '
+    'TransOffset or the values produced.')
 LEVEL = ('Exhaustive constant-table agreement plus structural proof of the search/shift/rule pairing clauses; the '
          'conversion values themselves are value semantics and not decided statically.')
 LEVEL_NOTE = 'Trusts clang 14 AST and sa/; std::upper_bound semantics assumed.'
@@ -174,6 +176,84 @@ def _shift_width(ctx, rule, u, f, shift_decl, K):
               'the shift count reaches %d but is stored in / cast to %s' % (cmax, (dtype(narrow[0]) if narrow else dtype(shift_decl))),
               construct='shift:width:count')
     ctx.check(nprod >= 2, rule, 'both products of the shift count found', shift_decl, 'found %d' % nprod, construct='shift:width:n')
+
+
+class _DecObs(Observer):
+    def __init__(self):
+        self.offs = []
+        self.unknown = []
+        self.stores = []
+
+    def load(self, ai, e, ptr, extent, st):
+        if ptr.target[:1] == ('symbuf',):
+            (self.offs if ptr.off is not None else self.unknown).append(ptr.off)
+
+    def store(self, ai, e, ptr, extent, st):
+        self.stores.append(e)
+
+
+def check_decode(ctx, rule):
+    """Every signed big-endian decoder the loader calls returns, for the N bytes it reads, exactly the N-byte
+    two's-complement range: abstract interpretation of the decoder on N unknown bytes.  A decoder whose range has
+    no negative half reads every pre-1970 transition time (4-byte data block) or negative offset as a large
+    positive number."""
+    import itertools
+    G = ctx.G
+    k0 = G.one('cctz::TimeZoneInfo::Load', 'ZoneInfoSource')
+    u0, f0 = G.defs[k0]
+    seen = set()
+    for x in walk(f0):
+        if x.get('kind') != 'CallExpr':
+            continue
+        c = callee(x)
+        if not c or c[0] != 'fn':
+            continue
+        for k in G.resolve_decl(c[1]):
+            if k in seen or k not in G.defs:
+                continue
+            seen.add(k)
+            u, f = G.defs[k]
+            ps = params_of(f)
+            ret = qtype(f).split('(')[0].strip()
+            if not ps or 'const char *' not in qtype(ps[0]) or not re.search(r'\bint', ret) or \
+                    re.search(r'unsigned|uint|size_t|\*|&', ret):
+                continue
+            extra = ps[1:]
+            if any(not re.search(r'int|size_t|long|short', qtype(p)) for p in extra):
+                ctx.unknown(rule, 'decoder %s' % qn(f), f, 'a parameter besides the byte pointer is not an integer width')
+                continue
+            for vals in itertools.product((4, 8), repeat=len(extra)):
+                inst = '%s(%s)' % (qn(f), ', '.join(['p'] + [str(v) for v in vals]))
+                obs = _DecObs()
+                ai = AI(G, obs, unroll=lambda f_: True, unroll_cap=64)
+                ai.step_budget = 3000      # (a decoder is a few dozen steps; a form the engine cannot unroll ends as not followed)
+                st = St()
+                st.mem[(ps[0]['id'],)] = c12.Ptr(False, ('symbuf', qn(f)), Int(0, 0))
+                for p, v in zip(extra, vals):
+                    st.mem[(p['id'],)] = Int(v, v)
+                try:
+                    res = ai.analyse(k, st)
+                except AnalysisBroken:
+                    res = None
+                rv = [r[0] for r in (res or [])]
+                ctx.note('C01-decode: %s took %d abstract steps' % (inst, ai.stats['steps']))
+                if not res or obs.unknown or obs.stores or not obs.offs or any(not isinstance(r, Int) for r in rv):
+                    ctx.unknown(rule, inst, f, 'the decoder body is not followed by the interval engine')
+                    continue
+                covered = set()
+                for o in obs.offs:
+                    covered.update(range(o.lo, o.hi + 1))
+                n = max(covered) + 1
+                if covered != set(range(n)) or n > 8:
+                    ctx.unknown(rule, inst, f, 'reads bytes %s of its argument, not one block' % sorted(covered))
+                    continue
+                lo, hi = min(r.lo for r in rv), max(r.hi for r in rv)
+                ctx.check((lo, hi) == (-(1 << (8 * n - 1)), (1 << (8 * n - 1)) - 1), rule,
+                          '%s decodes %d bytes as a two\'s-complement value' % (inst, n), f,
+                          'the decoder reads %d bytes MSB first but its results span [%s,%s], not the signed %d-bit range: '
+                          'values with the top bit set (transition times before 1970 in a 4-byte data block, negative '
+                          'offsets) are not sign-extended' % (n, lo, hi, 8 * n), construct='decode:' + qn(f),
+                          detail='result range [%s,%s] over %d unknown bytes' % (lo, hi, n))
 
 
 def check_shift_width(ctx, rule):
@@ -562,3 +642,7 @@ def run(ctx):
     # ---- C01-footer
     c12.check_footer(ctx, 'C01-footer')
     ctx.minimum('C01-footer', 3)
+
+    # ---- C01-decode
+    check_decode(ctx, 'C01-decode')
+    ctx.minimum('C01-decode', 2)
